@@ -190,6 +190,14 @@ prop("C11",
      note=NETWORLD + "; 'complete frame' is judged by the harness' own BER header parser; first bytes with tag number 31 are not judged for wedging")
 
 
+prop("C04", level="fault_enumeration",
+     title="Every operation terminates; losing the connection fails all pending work",
+     rule="cuts lane (fault enumeration): a scenario = 0-4 pending single operations + 0-3 pending streaming searches (0-4 items each, read eagerly) + a seeded interleaving of their responses (some operations left unanswered) + a fault kind in {server EOF, read error, complete undecodable frame, client unbind with the server closing on UnbindRequest} + barrier/no-barrier; the response stream is B bytes long and the scenario is run once for EVERY cut position p in 0..=B (undecodable frames only at message boundaries): the server delivers the first p bytes, passes a quiescence barrier, then injects the fault. Expected outcome per call is computed from the byte offsets: response complete before the cut (and barrier) => must be Ok with exactly its token; not complete => must be Err; complete without barrier => either, never wrong or partial data; stream items complete before the cut are returned in order, then Err (Ok(None) only if Done preceded the cut). Then: a later operation must fail with zero virtual time elapsed and zero bytes reaching the server, drive() must return under the virtual-time watchdog, unbind must return Ok and shut the transport, and the transport must be shut or dropped after every fault. write_errors lane: 0-2 single operations and 0-2 streams pending, then a write error at every byte position of the next request. handle_drops lane: clones and streams holding handles dropped one by one: transport open while any is alive, closed with drive() returning Ok after the last. distinct = distinct scenarios; evidence counts runs (= scenarios x cut points)",
+     claim="exhaustive over cut positions for each generated scenario, and over the byte positions of the failing request; held on every run",
+     design="3/C04", technique="fault enumeration over response-stream cut points on the in-memory transport with a virtual-time hang watchdog; expected outcomes computed from wire offsets",
+     note=NETWORLD + "; a hang is a client future still pending when the paused-clock runtime is idle (24 virtual hours watchdog), not a wall-clock deadline")
+
+
 # ---- properties not (yet) claimed ----
 def _na():
     out = []
